@@ -6,7 +6,13 @@ import (
 	"verif/harness/common"
 )
 
-// TestRest runs the sequential REST drivers; VERIF_PROP selects C15 or C20.
+// TestRest runs the sequential REST drivers; VERIF_PROP selects C15 or C20:
+//
+//	cd /verif/harness && VERIF_PROP=C15 VERIF_SEED=1 VERIF_TIER=quick VERIF_OUT=/tmp/o.json \
+//	  go1.26.8 test -count=1 -vet=off -overlay overlay/exports.json -run '^TestRest$' ./restc
+//
+// The concurrent part of C20 is TestRestConc in c20conc_test.go (build tag verifconc, instrumented
+// overlay): ./conc/run.sh /dev/shm/ov-c20 -tags verifconc -count=1 -run '^TestRestConc$' ./restc
 func TestRest(t *testing.T) {
 	res := common.NewResult("rest")
 	defer func() {
